@@ -52,7 +52,7 @@ VARIABLES
   cs,        \* call -> "none" | "queued" | "running" | "done" | "skipped" | "dropped"
   cw,        \* caller -> "idle" | "called" | "wait" | "rej" | "back"
   rj,        \* caller -> rejection reason while cw = "rej"
-  info,      \* call -> [h, fail] as submitted
+  info,      \* call -> [h, fail, kd] as submitted (kd: kind of what the callee hands back)
   lane,      \* call -> lane it was accepted on (-1 none)
   ctxd,      \* call -> its context has ended
   late,      \* call -> invoked after Stop had returned
@@ -76,9 +76,9 @@ Unknown == 1000     \* slot of a hash class not yet seen (traces only)
 \* times in record" / "nonexistent field op", about 1 run in 6 with -workers 4).  Hence no
 \* multi-field record in the actions below is constant-level (`c - c` for 0, `\E b \in {0}`); the
 \* check also re-runs a model-checking run that dies of this TLC race.
-R(k, v, e) == [e |-> e, k |-> k, v |-> v]
-NoRet  == R("none", 0, FALSE)
-NoInfo == [fail |-> FALSE, h |-> 0]
+R(k, v, e, kd) == [e |-> e, k |-> k, kd |-> kd, v |-> v]
+NoRet  == R("none", 0, FALSE, 0)
+NoInfo == [fail |-> FALSE, h |-> 0, kd |-> 0]
 
 (* ---- the slot formula on HashBits-wide two's-complement integers ------- *)
 MinH == -(2 ^ (HashBits - 1))
@@ -103,10 +103,10 @@ Run ==
   /\ UNCHANGED <<kind, nl, qsize, slot, qclosed, stopst, queue, cs, cw, rj, info, lane, ctxd, late,
                  rv, acc, sto, nst>>
 
-Inv(c, h, fail, pre) ==
+Inv(c, h, fail, pre, kd) ==
   /\ cw[c] = "idle"
   /\ cw' = [cw EXCEPT ![c] = "called"]
-  /\ info' = [info EXCEPT ![c] = [fail |-> fail, h |-> h]]
+  /\ info' = [info EXCEPT ![c] = [fail |-> fail, h |-> h, kd |-> kd]]
   /\ ctxd' = [ctxd EXCEPT ![c] = pre]
   /\ late' = [late EXCEPT ![c] = (stopst = "done")]
   /\ UNCHANGED <<kind, nl, qsize, slot, started, up, qclosed, stopst, queue, cs, rj, lane, rv, acc,
@@ -172,12 +172,27 @@ End(c) ==
 (* the replies a caller may receive: its own rejection, its own result,    *)
 (* its own context's error (only once that context ended), and for pchan   *)
 (* "closed" once the stop channel is closed                                *)
+(* What the callee of c hands back is c's result whatever its dynamic kind:  *)
+(* kinds 0..9 carry the call's identity (struct, pointer, int, string, slice, *)
+(* map, func; error value, error pointer, wrapped error), kinds 10..19 do not *)
+(* (nil, typed nil pointer, typed nil error), kind 30 / 31 is the executor's  *)
+(* own "closed" / "full" error returned by the callee as ITS error, 32.. are  *)
+(* other sentinel errors of the packages involved.  An executor must not     *)
+(* reinterpret any of them.                                                   *)
+OwnRes(c) ==
+  LET kd == info[c].kd
+      f  == info[c].fail
+  IN IF f /\ kd = 30 THEN R("closed", c - c, FALSE, 0)
+     ELSE IF f /\ kd = 31 THEN R("full", c - c, FALSE, 0)
+     ELSE IF f /\ kd >= 32 THEN R("sent", kd, TRUE, kd)
+     ELSE R("res", IF kd >= 10 /\ kd < 20 THEN 0 ELSE c, f, kd)
+
 RetOK(c, r) ==
-  \/ cw[c] = "rej" /\ r = R(rj[c], 0, FALSE)
+  \/ cw[c] = "rej" /\ r = R(rj[c], 0, FALSE, 0)
   \/ /\ cw[c] = "wait"
-     /\ \/ cs[c] = "done" /\ r = R("res", c, info[c].fail)
-        \/ ctxd[c] /\ r = R("ctx", c, FALSE)
-        \/ kind = "pchan" /\ qclosed[0] /\ r = R("closed", c - c, FALSE)
+     /\ \/ cs[c] = "done" /\ r = OwnRes(c)
+        \/ ctxd[c] /\ r = R("ctx", c, FALSE, 0)
+        \/ kind = "pchan" /\ qclosed[0] /\ r = R("closed", c - c, FALSE, 0)
 
 Ret(c, r) ==
   /\ RetOK(c, r)
@@ -234,7 +249,7 @@ Exit(l) == ExitSet({l})
 (* ---- action records, shared with the Go harness ------------------------ *)
 Do(a) ==
   CASE a.op = "run"    -> Run
-    [] a.op = "inv"    -> Inv(a.c, a.h, a.fail, a.pre)
+    [] a.op = "inv"    -> Inv(a.c, a.h, a.fail, a.pre, a.kd)
     [] a.op = "enq"    -> Enq(a.c, a.r, a.l)
     [] a.op = "start"  -> Start(a.c)
     [] a.op = "skip"   -> Skip(a.c)
@@ -249,7 +264,7 @@ Do(a) ==
 
 Step(a) == Do(a) /\ last' = a
 
-RetCands(c) == {R(rj[c], 0, FALSE), R("res", c, info[c].fail), R("ctx", c, FALSE), R("closed", c - c, FALSE)}
+RetCands(c) == {R(rj[c], 0, FALSE, 0), OwnRes(c), R("ctx", c, FALSE, 0), R("closed", c - c, FALSE, 0)}
 
 NextCall == IF \E c \in Calls : cw[c] = "idle"
             THEN {CHOOSE c \in Calls : cw[c] = "idle" /\ \A d \in Calls : cw[d] = "idle" => c <= d}
@@ -263,7 +278,7 @@ ExtNext ==   \* what the environment (owner, callers, callee) decides
   \/ Step([op |-> "run"])
   \/ \E b \in {0} : Step([by |-> b, op |-> "stopi"])
   \/ \E c \in NextCall, h \in HashChoice, f \in Fails, p \in Pres :
-       Step([c |-> c, fail |-> f, h |-> h, op |-> "inv", pre |-> p])
+       Step([c |-> c, fail |-> f, h |-> h, kd |-> c - c, op |-> "inv", pre |-> p])
   \/ \E c \in Calls : \/ Step([c |-> c, op |-> "end"])
                        \/ (CancelMatters(c) /\ Step([c |-> c, op |-> "cancel"]))
 IntNext ==   \* what happens by itself
@@ -310,7 +325,7 @@ GenExt ==
     \/ (stopst = "no" /\ (RandomElement(1..4) = 1 \/ NextCall = {}))
          /\ Step([by |-> RandomElement({0} \cup {c \in Calls : cs[c] = "running"}), op |-> "stopi"])
     \/ \E c \in NextCall :
-         Step([c |-> c, fail |-> RandomElement(Fails), h |-> RandomElement(HashChoice), op |-> "inv", pre |-> (TRUE \in Pres /\ RandomElement(1..5) = 1)])
+         Step([c |-> c, fail |-> RandomElement(Fails), h |-> RandomElement(HashChoice), kd |-> c - c, op |-> "inv", pre |-> (TRUE \in Pres /\ RandomElement(1..5) = 1)])
     \/ \E c \in Calls : \/ Step([c |-> c, op |-> "end"])
                          \/ (CancelMatters(c) /\ RandomElement(1..2) = 1 /\ Step([c |-> c, op |-> "cancel"]))
 GenNext == IF ENABLED IntNext THEN IntNext ELSE GenExt
@@ -325,7 +340,7 @@ FairSpec ==
 
 -----------------------------------------------------------------------------
 TypeOK ==
-  /\ nl \in 1..MaxLanes /\ qsize \in Nat
+  /\ nl \in Nat \ {0} /\ qsize \in Nat     \* (lanes beyond MaxLanes-1 are not modelled: no call may land there)
   /\ stopst \in {"no", "ing", "done"}
   /\ \A c \in Calls :
        /\ cs[c] \in {"none", "queued", "running", "done", "skipped", "dropped"}
@@ -354,11 +369,10 @@ SkipSound == \A c \in Calls :
 
 (* each caller receives its own result, its own context's error, or a rejection *)
 Routed == \A c \in Calls : cw[c] = "back" =>
-  CASE rv[c].k = "res"    -> rv[c].v = c /\ rv[c].e = info[c].fail /\ cs[c] = "done"
-    [] rv[c].k = "ctx"    -> rv[c].v = c /\ ctxd[c]
-    [] rv[c].k = "full"   -> cs[c] = "none"
-    [] rv[c].k = "closed" -> (cs[c] = "none" \/ kind = "pchan") /\ \E l \in LaneIds : qclosed[l]
-    [] OTHER -> FALSE
+  \/ rv[c] = OwnRes(c) /\ cs[c] = "done"
+  \/ rv[c] = R("ctx", c, FALSE, 0) /\ ctxd[c]
+  \/ rv[c] = R("full", 0, FALSE, 0) /\ cs[c] = "none"
+  \/ rv[c] = R("closed", 0, FALSE, 0) /\ (cs[c] = "none" \/ kind = "pchan") /\ \E l \in LaneIds : qclosed[l]
 
 (* lane = Slot(hash), a function of the hash into 0..nl-1 *)
 SlotInRange == \A h \in Hashes : slot[h] = Unknown \/ (slot[h] >= 0 /\ slot[h] < nl)
